@@ -2,7 +2,8 @@
 from vlib.tok import f64, lst
 from checks import arraygen as A
 ID = 'C01'
-THEOREMS = ['Nix.C01.inBox_inShape_of_within', 'Nix.C01.resolve_of_boxOk', 'Nix.C01.get_write', 'Nix.C01.read_write_disjoint', 'Nix.C01.write_shape', 'Nix.C01.write_outside_rejected', 'Nix.C01.get_setExtent', 'Nix.C01.read_after_grow_zero', 'Nix.C01.shrink_then_grow_zero', 'Nix.C01.applyOp_normal', 'Nix.C01.step_lastValue', 'Nix.C01.history_last_writer', 'Nix.C01.history_from_creation', 'Nix.C01.read_depends_on_store_only']
+LEAN_MODULES = ['NixModel.Props.C01', 'NixModel.Props.C01Whole']
+THEOREMS = ['Nix.C01.setWhole_refused_no_trace', 'Nix.C01.setWhole_reads_back', 'Nix.C01.inBox_inShape_of_within', 'Nix.C01.resolve_of_boxOk', 'Nix.C01.get_write', 'Nix.C01.read_write_disjoint', 'Nix.C01.write_shape', 'Nix.C01.write_outside_rejected', 'Nix.C01.get_setExtent', 'Nix.C01.read_after_grow_zero', 'Nix.C01.shrink_then_grow_zero', 'Nix.C01.applyOp_normal', 'Nix.C01.step_lastValue', 'Nix.C01.history_last_writer', 'Nix.C01.history_from_creation', 'Nix.C01.read_depends_on_store_only']
 RULE = ('random histories per array: 12 element types x rank 1-4 x shapes with extents 1..6 x array compression {none, deflate} x file compression '
         '{auto, deflate}; 6-40 ops from {write hyperslab, read hyperslab (also beyond the extent), read whole, append along an axis, set extent '
         '(grow / shrink / same element count different shape), read as another numeric type, set / unset polynomial and origin + calibrated reads, '
@@ -71,6 +72,25 @@ def history(rng, tier):
                 calibrated = True
             else:
                 lines.append('da_poly ~'); lines.append('da_origin ~'); calibrated = False
+        elif r < 0.93 and not readonly and rank <= 3 and not calibrated:
+            # the whole-array write that also SETS THE EXTENT (setData(container)): accepted with a buffer of the array's own type,
+            # refused — without a trace — with a buffer of another class (numbers for a string array, strings for a numeric one,
+            # anything but booleans for a boolean array); and an append of the wrong class
+            other = 'Double' if dt == 'String' else ('Int32' if dt == 'Bool' and rng.random() < 0.5 else 'String')
+            q = rng.random()
+            if q < 0.5 and (dt != 'String' or rank == 1):
+                ns = [max(1, x + rng.choice([-2, -1, 0, 1, 2])) for x in shape]
+                lines.append('da_whole %s %s %s' % (dt, A.idx(ns), lst([val() for _ in range(A.prod(ns))])))
+                shape = ns
+            elif q < 0.8 and (other != 'String' or rank == 1):
+                ns = [max(1, x + rng.choice([-2, -1, 1, 2])) for x in shape]
+                lines.append('da_whole %s %s %s' % (other, A.idx(ns), lst([A.small_value(other, rng) for _ in range(A.prod(ns))])))
+            else:
+                axis = rng.randrange(rank)
+                cnt = list(shape); cnt[axis] = rng.randint(1, 2)
+                lines.append('da_app %s %s %d %s' % (other, A.idx(cnt), axis, lst([A.small_value(other, rng) for _ in range(A.prod(cnt))])))
+            lines.append('da_shape')
+            lines.append('da_rd %s %s %s %d' % (dt, A.idx(shape), A.idx([0] * rank), A.prod(shape)))
         elif r < 0.96:
             mode = rng.choice(['rw', 'rw', 'ro'])
             lines.append('da_reopen %s' % mode)
